@@ -64,6 +64,13 @@ pub struct Case {
     pub chunks: Vec<usize>,
     pub yields: Vec<bool>,
     pub sched: u64,
+    /// the id counter is positioned here before the first operation (ids with 1-4 content octets)
+    #[serde(default)]
+    pub start_id: i32,
+}
+
+pub fn start_id() -> BoxedStrategy<i32> {
+    prop_oneof![4 => Just(0i32), 2 => proptest::sample::select(&[120i32, 126, 127, 250, 254, 255, 32760, 32766, 32767, 65530, 65535, 8388600, 8388607, 16777215, 2147483630][..]), 1 => 0i32..70000].boxed()
 }
 
 fn items() -> BoxedStrategy<Vec<Item>> {
@@ -93,8 +100,8 @@ fn strat(_: &Ctx) -> BoxedStrategy<Case> {
             .prop_map(|(before, kind)| Unsol { before, kind }),
         0..=4,
     );
-    (vec(op, 1..=12), vec(any::<u16>(), 100), vec(any::<bool>(), 1..6), unsol, chunk_plan(), any::<u64>())
-        .prop_map(|(ops, ranks, glue, unsol, (chunks, yields), sched)| Case { ops, ranks, glue, unsol, chunks, yields, sched })
+    (vec(op, 1..=12), vec(any::<u16>(), 100), vec(any::<bool>(), 1..6), unsol, chunk_plan(), any::<u64>(), start_id())
+        .prop_map(|(ops, ranks, glue, unsol, (chunks, yields), sched, start_id)| Case { ops, ranks, glue, unsol, chunks, yields, sched, start_id })
         .boxed()
 }
 
@@ -307,6 +314,7 @@ pub fn check(case: &Case, obs: &mut Obs) -> Result<(), Fail> {
     let c = case.clone();
     let out = sim::run_sim(case.sched, async move {
         let conn = sim::connect();
+        conn.msgmap.lock().unwrap().0 = c.start_id;
         conn.wire.with(|w| {
             w.read_chunks = c.chunks.clone();
             w.yield_after_chunk = c.yields.clone();
@@ -439,8 +447,117 @@ pub fn check(case: &Case, obs: &mut Obs) -> Result<(), Fail> {
     if case.chunks == vec![1] {
         obs.label("1-byte-reads");
     }
+    if case.start_id >= 127 {
+        obs.label("multi-octet-message-ids");
+    }
     if concurrent && (inversion || interleaved || log.unsol_mid_op) {
         obs.nontrivial((format!("{:?}", case.ops.iter().map(|o| (&o.kind, o.handle)).collect::<Vec<_>>()), &log.sent, &case.chunks));
+    }
+    Ok(())
+}
+
+// ------------------------------------------------------------------ lane: sign-alias ids
+//
+// A message id whose INTEGER content octets, read as unsigned, equal the id of a live operation
+// (e.g. `02 01 85` = -123 vs. live id 133) is NOT that operation's id. Whatever the client does with
+// such a message (it may end the connection), it must never hand it to the live operation.
+
+#[derive(Clone, Debug, Serialize, Deserialize)]
+pub struct AliasCase {
+    pub start: i32,
+    pub kinds: Vec<Single>,
+    pub target: u8,
+    pub alias_first: bool,
+    pub sched: u64,
+}
+
+fn alias_strat(_: &Ctx) -> BoxedStrategy<AliasCase> {
+    let start = prop_oneof![3 => 127i32..250, 2 => 32767i32..33000, 1 => 8388607i32..8388700, 1 => 200i32..255, 1 => 65000i32..65530];
+    (start, vec(simops::single_strat(), 1..=3), 0u8..3, any::<bool>(), any::<u64>()).prop_map(|(start, kinds, target, alias_first, sched)| AliasCase { start, kinds, target, alias_first, sched }).boxed()
+}
+
+fn check_alias(c: &AliasCase, obs: &mut Obs) -> Result<(), Fail> {
+    let cc = c.clone();
+    let out = sim::run_sim(c.sched, async move {
+        let conn = sim::connect();
+        conn.msgmap.lock().unwrap().0 = cc.start;
+        let wire = conn.wire.clone();
+        let n = cc.kinds.len();
+        let kinds = cc.kinds.clone();
+        let c2 = cc.clone();
+        let srv = tokio::spawn(async move {
+            let mut ids: Vec<Option<i64>> = vec![None; n];
+            for _ in 0..4 {
+                quiesce().await;
+                while let Some(r) = wire.try_recv() {
+                    if let Recv::Msg(Ok(m), _, _) = r {
+                        if let Some(i) = simops::marker_index(&m) {
+                            if i < n {
+                                ids[i] = Some(m.id);
+                            }
+                        }
+                    }
+                }
+                if ids.iter().all(|i| i.is_some()) {
+                    break;
+                }
+            }
+            let t = c2.target as usize % n;
+            let Some(tid) = ids[t] else { return None };
+            // unsigned big-endian octets of the live id without a sign octet: a negative INTEGER
+            let b = (tid as u32).to_be_bytes();
+            let skip = b.iter().take_while(|x| **x == 0).count();
+            let content = b[skip..].to_vec();
+            let is_alias = content.first().map(|x| x & 0x80 != 0).unwrap_or(false);
+            let alias = crate::ber::encode(&crate::ber::Tlv::seq(vec![crate::ber::Tlv::prim(0, 2, content), Resp::result(kinds[t].resp_tag(), Res::ok("ALIAS")).to_tlv()]));
+            let genuine: Vec<u8> = (0..n).flat_map(|i| RespMsg::new(ids[i].unwrap_or(0), Resp::result(kinds[i].resp_tag(), Res::ok(&token(i, 0)))).encode()).collect();
+            if !is_alias {
+                // the content octets are the id's own valid encoding: nothing adversarial to send
+                wire.push(&genuine);
+            } else if c2.alias_first {
+                wire.push(&alias);
+                quiesce().await;
+                wire.push(&genuine);
+            } else {
+                let mut b = alias.clone();
+                b.extend_from_slice(&genuine);
+                wire.push(&b);
+            }
+            quiesce().await;
+            wire.end_read(sim::ReadEnd::Eof);
+            Some((tid, is_alias))
+        });
+        let mut tasks = Vec::new();
+        for (i, k) in cc.kinds.iter().copied().enumerate() {
+            let mut l = conn.ldap.clone();
+            tasks.push(tokio::spawn(async move {
+                match simops::exec_single(&mut l, k, &simops::marker(i)).await {
+                    Ok(r) => Ok(r.text),
+                    Err(e) => Err(err_kind(&e)),
+                }
+            }));
+        }
+        let mut res = Vec::new();
+        for t in tasks {
+            res.push(t.await.unwrap_or_else(|_| Err("panic".into())));
+        }
+        let info = srv.await.ok().flatten();
+        (res, info)
+    });
+    let (res, info) = match out {
+        SimResult::Done(v) => v,
+        SimResult::Hang => fail!("c01:hang", "operations never completed after a message with a sign-aliased id"),
+    };
+    let Some((tid, is_alias)) = info else { fail!("c01:server-problem", "requests did not arrive") };
+    for (i, r) in res.iter().enumerate() {
+        if let Ok(text) = r {
+            ensure!(text != "ALIAS", "c01:sign-alias-misrouted", "operation {} (message id {}) was handed a response sent under the NEGATIVE message id whose content octets read unsigned equal {} - an id that matches no outstanding operation", i, tid, tid);
+            ensure!(text == &token(i, 0), "c01:misrouted", "operation {} observed {:?}", i, text);
+        }
+    }
+    if is_alias {
+        obs.label("negative-alias-of-live-id");
+        obs.nontrivial((c.start, format!("{:?}", c.kinds), c.target, c.alias_first));
     }
     Ok(())
 }
@@ -449,9 +566,12 @@ pub fn property() -> Property {
     Property {
         id: "C01",
         level: "exploration",
-        rule: "generated histories on the simulated connection: 1-12 operations (7 single-result kinds, direct and EntriesOnly streaming searches with 0-6 items from entry/reference/intermediate) on 1-4 cloned handles with start delays; a generated global merge order of all response PDUs (any interleaving preserving per-operation order; PDUs optionally glued into one read), 0-4 unsolicited PDUs (id 0, never-issued ids with result/entry/done payloads, extra results/entries for completed ids) at generated positions, a read plan (1-byte, random chunk sizes, forced yields between chunks) and a scheduler seed for select! branch order. Oracle: every operation's observed token sequence equals what the server sent under that operation's own wire id (last_id), nobody sees an unsolicited token, driver ends cleanly. Non-trivial: >=2 operations outstanding at once AND (an inversion between request and completion order, or entries of >=2 searches interleaved, or an unsolicited PDU between two PDUs of a live operation). Distinct = hash of (op kinds+handles, send order, chunk plan).",
+        rule: "generated histories on the simulated connection: 1-12 operations (7 single-result kinds, direct and EntriesOnly streaming searches with 0-6 items from entry/reference/intermediate) on 1-4 cloned handles with start delays; a generated global merge order of all response PDUs (any interleaving preserving per-operation order; PDUs optionally glued into one read), 0-4 unsolicited PDUs (id 0, never-issued ids with result/entry/done payloads, extra results/entries for completed ids) at generated positions, a read plan (1-byte, random chunk sizes, forced yields between chunks) and a scheduler seed for select! branch order. Oracle: every operation's observed token sequence equals what the server sent under that operation's own wire id (last_id), nobody sees an unsolicited token, driver ends cleanly. The id counter is positioned at generated starts so that message ids need 1-4 content octets. Lane alias: a response whose negative message id has the same content octets as a live operation's id (read unsigned) must never reach that operation. Non-trivial: >=2 operations outstanding at once AND (an inversion between request and completion order, or entries of >=2 searches interleaved, or an unsolicited PDU between two PDUs of a live operation). Distinct = hash of (op kinds+handles, send order, chunk plan).",
         assumptions: &["tokio paused clock + RngSeed (tokio_unstable) make the history a function of the case", "late PDUs for completed ids are only scripted while ids cannot have been re-issued (no wrap-around within 12 operations)"],
-        lanes: vec![Box::new(PLane { name: "routing", cases: |t| t.pick(2_500, 40_000), strat, check })],
+        lanes: vec![
+            Box::new(PLane { name: "routing", cases: |t| t.pick(2_500, 40_000), strat, check }),
+            Box::new(PLane { name: "alias", cases: |t| t.pick(400, 5_000), strat: alias_strat, check: check_alias }),
+        ],
         workers: (8, 16),
     }
 }
